@@ -91,8 +91,8 @@ impl<'a> Parser<'a> {
     #[inline]
     fn parse_expr(&mut self, precedence: Precedence) -> Result<Expr, ParseError> {
         let mut left = match self.current_token {
-            Token::Int(s) => self.parse_int_expression(s),
-            Token::Float(s) => self.parse_float_expression(s),
+            Token::Int(s) => self.parse_int_expression(s)?,
+            Token::Float(s) => self.parse_float_expression(s)?,
             Token::True => self.parse_bool_expression(true),
             Token::False => self.parse_bool_expression(false),
             Token::String(s) => self.parse_string_expression(s),
@@ -270,18 +270,24 @@ impl<'a> Parser<'a> {
     }
 
     #[inline]
-    fn parse_int_expression(&mut self, strval: &str) -> Expr {
+    fn parse_int_expression(&mut self, strval: &str) -> Result<Expr, ParseError> {
         self.advance();
-        Expr::Int {
-            value: strval.parse().unwrap(),
+        match strval.parse() {
+            Ok(value) => Ok(Expr::Int { value }),
+            Err(_) => Err(ParseError::SyntaxError(format!(
+                "{strval} is geen geldig geheel getal"
+            ))),
         }
     }
 
     #[inline]
-    fn parse_float_expression(&mut self, strval: &str) -> Expr {
+    fn parse_float_expression(&mut self, strval: &str) -> Result<Expr, ParseError> {
         self.advance();
-        Expr::Float {
-            value: strval.parse().unwrap(),
+        match strval.parse() {
+            Ok(value) => Ok(Expr::Float { value }),
+            Err(_) => Err(ParseError::SyntaxError(format!(
+                "{strval} is geen geldig kommagetal"
+            ))),
         }
     }
 
